@@ -172,6 +172,13 @@ func verifyUnit1(l *Loader, pkgPath, key string, fixed map[string]Val, suffix st
 				}
 			}
 		}
+		for i, m := range c.Preserves {
+			loc := env.evalLoc(m)
+			if loc.Kind != "ptr" {
+				fail("preserves %s: only pointer locations are supported", m.Src)
+			}
+			fxp.oblige(fmt.Sprintf("preserves.%d", i+1), "post", out, fxp.valuesEqual(fxp.load(out, loc.Ptr), fxp.load(entry, loc.Ptr)), fn.Pos(), "unchanged: "+m.Src)
+		}
 		if !c.Lemma && !c.NoFrame && len(c.Ensures)+len(c.Modifies) > 0 {
 			frameObligations(ex, fxp, entry, out, locs)
 		}
